@@ -212,11 +212,21 @@ def can_reach(prog, targets):
 
 def openers(prog):
     """(roots, auth_keys, results, candidates): least fixpoint of authenticated openers."""
-    roots = [f for f in prog.fns if mac_prim_atoms(f)]
+    # functions are analysed with their private helpers folded in, so a tag comparison extracted into
+    # `fn macs_match(a, b)` still belongs to the function that computed the tag
+    from ..inline import inline
+    cache = getattr(prog, "_opener_views", None)
+    if cache is None:
+        cache = prog._opener_views = {}
+    def view(f):
+        if f.key not in cache:
+            cache[f.key] = inline(prog, f) if any(c.is_local for c in f.calls()) else f
+        return cache[f.key]
+    roots = [view(f) for f in prog.fns if f.kind != "closure" and mac_prim_atoms(view(f))]
     if not roots:
         raise AnchorError("no function compares a Poly1305 tag with ct_eq")
     cand_keys = can_reach(prog, roots)
-    cands = [prog.by_key[k] for k in cand_keys]
+    cands = [view(prog.by_key[k]) for k in cand_keys]
     auth, results = auth_fixpoint(prog, [f for f in cands if returns_result(f)], mac_prim_atoms)
     return roots, auth, results, cands
 
@@ -335,11 +345,11 @@ def is_zero_array_operand(fn, o):
     return t.replace("&", "").strip() in ("repeat(const(0))",) or t.startswith("repeat(const(0))")
 
 
-def zero_events(fn, views):
-    """Program points that overwrite every byte of a view in `views` with zero, in the idioms a
-    maintainer would use: slice.fill(0); copy_from_slice(&[0; N]); zeroize(); and
-    `for b in view.iter_mut() { *b = 0 }` (a store of constant 0 through a pointer that derives from an
-    iter_mut() over the view).  Returns [(bb, view_local, idiom)]."""
+def fill_events(fn, views):
+    """Program points that overwrite every byte of a view in `views` with one constant byte, in the
+    idioms a maintainer would use: slice.fill(v); copy_from_slice(&[0; N]); zeroize(); and
+    `for b in view.iter_mut() { *b = v }` (a store of a constant through a pointer that derives from an
+    iter_mut() over the view).  Returns [(bb, view_local, idiom, value)]."""
     from ..expr import expr_of_operand, evaluate, call_arg_exprs
     out = []
     iters = {}
@@ -349,25 +359,36 @@ def zero_events(fn, views):
         if l0 is None or l0 not in views:
             continue
         if c.path == "core::slice::<impl [T]>::fill" and len(c.args) == 2:
-            if evaluate(call_arg_exprs(c)[1], {}) == 0:
-                out.append((c.bb, l0, "fill(0)"))
+            v = evaluate(call_arg_exprs(c)[1], {})
+            if isinstance(v, int) and not isinstance(v, bool):
+                out.append((c.bb, l0, "fill(%d)" % v, v))
         elif c.path in COPY and len(c.args) == 2 and is_zero_array_operand(fn, c.args[1]):
-            out.append((c.bb, l0, "copy_from_slice(zeros)"))
+            out.append((c.bb, l0, "copy_from_slice(zeros)", 0))
         elif c.path.endswith("Zeroize::zeroize"):
-            out.append((c.bb, l0, "zeroize"))
+            out.append((c.bb, l0, "zeroize", 0))
         elif c.path == "core::slice::<impl [T]>::iter_mut":
             iters[c.dest["l"]] = (l0, c.bb)
     if iters:
         for b, i, s in fn.assigns():
             pl = s["place"]
-            if pl["p"] == ["deref"] and s["rv"]["k"] == "use" and s["rv"]["x"].get("k") == "const" and s["rv"]["x"].get("v") == 0:
+            if pl["p"] == ["deref"] and s["rv"]["k"] == "use":
+                v = evaluate(expr_of_operand(fn, s["rv"]["x"]), {})
+                if not isinstance(v, int) or isinstance(v, bool):
+                    continue
                 back = fn.backward_slice([pl["l"]])
-                for it, (v, itb) in iters.items():
-                    # the event is placed at the iter_mut() call: the loop that follows visits every
-                    # element of the view (a zero-trip loop means an empty view)
-                    if it in back and itb in fn.dom.get(b, ()):
-                        out.append((itb, v, "iter_mut loop storing 0"))
+                # the event is placed at the iter_mut() call: the loop that follows visits every
+                # element of the view (a zero-trip loop means an empty view).  With several loops over
+                # the same storage the store belongs to the nearest dominating iterator.
+                cands = [(len(fn.dom.get(itb, ())), it, vw, itb) for it, (vw, itb) in iters.items() if it in back and itb in fn.dom.get(b, ())]
+                if cands:
+                    _, it, vw, itb = max(cands)
+                    out.append((itb, vw, "iter_mut loop storing %d" % v, v))
     return out
+
+
+def zero_events(fn, views):
+    """fill_events with value 0: [(bb, view_local, idiom)]"""
+    return [(b, v, idiom) for b, v, idiom, val in fill_events(fn, views) if val == 0]
 
 
 def const_index_stores(fn, views):
